@@ -1,10 +1,11 @@
 From Coq Require Import List NArith Extraction ExtrOcamlBasic.
-From DDP Require Import Types.Ty Types.Assign Types.Generic.
+From DDP Require Import Types.Ty Types.Assign Types.Generic Types.GenericFun.
 Extraction Language OCaml.
 Extraction "c14_model.ml"
   ty_eqb equal deep_equal underlying true_underlying true_list_underlying list_true_underlying
   list_elem nested_list_elem
   is_primitive is_numeric is_list is_void is_struct is_type_alias is_type_def is_any is_generic
   cast_type_def wf_types
-  init_ok assign_ok cast_ok cast_assignable_ok
-  gstate0 get_inst unify instantiate_type check_args subst.
+  init_ok assign_ok cast_ok cast_assignable_ok arg_ok return_ok
+  gstate0 get_inst unify instantiate_type check_args subst
+  fstate0 fstep.
